@@ -42,6 +42,9 @@ FILLER = ['Today', 'meeting', 'report', 'around', 'about', 'held', 'was', 'the',
           'for', 'scheduled', 'lunch', 'with', 'Bob', 'see', 'you', 'then', 'approximately', 'roughly', 'deadline', 'it']
 
 
+WHITESPACE = ['\t', '\n', '\r', '\x0b', '\x0c', '\xa0', '\u2003', ' ']
+
+
 def shard_env(shard, nshards):
     return {'TZ': TZS[shard % len(TZS)]}
 
@@ -190,7 +193,8 @@ def wl_zone(ctx, P, PP, tz, rng):
     base = D.datetime(y, rng.choice([1, 7]), rng.randint(1, 28), rng.randint(0, 23), rng.randint(0, 59), rng.randint(0, 59))
     btxt = base.strftime('%Y-%m-%d %H:%M:%S')
     branch = rng.choice(['dict-int', 'dict-tzinfo', 'dict-str', 'callable', 'callable-offset', 'dict-beats-utc', 'dict-miss',
-                         'numeric', 'zero', 'utc-name', 'gmt+h', 'name+h', 'unknown', 'local-name', 'none'])
+                         'numeric', 'zero', 'utc-name', 'gmt+h', 'name+h', 'unknown', 'local-name', 'none', 'numeric-paren-name',
+                         'numeric-paren-name'])
     ignoretz = rng.random() < .2
     kw = {'ignoretz': True} if ignoretz else {}
     secs = rng.choice([-1, 1]) * (rng.randint(0, 14) * 3600 + rng.choice([0, 0, 30, 45]) * 60)
@@ -236,6 +240,26 @@ def wl_zone(ctx, P, PP, tz, rng):
         form = rng.choice(['%s%02d%02d', ' %s%02d%02d', '%s%02d:%02d', ' %s%02d:%02d'])
         text = btxt + form % (sign, hh, mm)
         exp_off = secs
+    elif branch == 'numeric-paren-name':
+        # '-0300 (BRST)' / '-03:00 (BRST)': the offset with the name in parentheses names the zone; tzinfos are asked by name
+        if secs == 0:
+            secs, hh, mm, sign = -10800, 3, 0, '-'
+        form = rng.choice(['%s%02d%02d', '%s%02d:%02d'])
+        text = btxt + ' ' + form % (sign, hh, mm) + ' (BRST)'
+        sub = rng.choice(['plain', 'dict', 'callable'])
+        branch += '-' + sub + ('-colon' if ':' in form else '')
+        exp_off, exp_name = secs, 'BRST'
+        if sub == 'dict':
+            obj = tz.tzoffset('FROMDICT', 1234)
+            kw['tzinfos'] = {'BRST': obj}
+            exp_off, exp_name, exp_is = 1234, 'FROMDICT', obj
+        elif sub == 'callable':
+            seen = []
+
+            def f(name, off):
+                seen.append((name, off))
+                return tz.tzoffset(name, off)
+            kw['tzinfos'] = f
     elif branch == 'zero':
         text = btxt + rng.choice(['+0000', ' +00:00', '-00:00', 'Z', ' Z', '+00'])
         exp_off, exp_is = 0, (tz.UTC if 'UTC' not in local_names() else None)   # 'UTC' as a *local* zone name comes first
@@ -296,6 +320,8 @@ def wl_zone(ctx, P, PP, tz, rng):
             bad.append('TZ string not turned into tzstr: %r' % (v.tzinfo,))
         if branch in ('numeric', 'dict-miss') and exp_off != 0 and not isinstance(v.tzinfo, tz.tzoffset):
             bad.append('numeric offset gave %r' % (v.tzinfo,))
+        if branch.startswith('numeric-paren-name-callable') and not ignoretz and seen != [('BRST', secs)]:
+            bad.append('callable was called with %r, expected [%r]' % (seen, ('BRST', secs)))
         if branch in ('callable', 'callable-offset') and not ignoretz:
             want = ('EST', None) if branch == 'callable' else ((None, secs) if secs else ('UTC', 0))
             if seen != [want]:
@@ -342,8 +368,12 @@ def wl_local(ctx, P, tz, rng, kw, ignoretz):
         bad.append('naive for local zone name %s' % name)
     elif v.utcoffset() != D.timedelta(seconds=off):
         bad.append('offset %r expected %d' % (v.utcoffset(), off))
-    elif label.startswith('local-') and label != 'local-std-utc' and not isinstance(v.tzinfo, (tz.tzlocal, tz.tzutc)):
+    elif label.startswith('local-') and not isinstance(v.tzinfo, tz.tzlocal):
+        # local zone names come before the UTC designators in the documented order: 'GMT' in a British winter (or 'UTC'
+        # under TZ=UTC) is the local zone, with its summer time half a year later
         bad.append('local name resolved to %r' % (v.tzinfo,))
+    elif label.startswith('local-') and v.tzname() != name:
+        bad.append('tzname %r for text %r' % (v.tzname(), name))
     if bad:
         ctx.violation('zone-resolution', case, '; '.join(bad))
 
@@ -434,6 +464,10 @@ def wl_fuzzy(ctx, P, rng, cur):
     if not pre and not post:
         pre = ['Today']
     sentence = ' '.join(pre + [text] + post)
+    if rng.random() < .3:
+        # every whitespace character is a blank to the parser (tab, newline, NBSP ... directly after a number too)
+        sentence = ''.join(rng.choice(WHITESPACE) if c == ' ' else c for c in sentence)
+        ctx.count('fuzzy_odd_whitespace')
     kw = dict(t.flags)
     r1 = call(P.parse, sentence, fuzzy=True, **kw)
     r2 = call(P.parse, sentence, fuzzy_with_tokens=True, **kw)
@@ -598,7 +632,8 @@ def floors(agg, tier):
     for k in ('default_day_clipped', 'default_weekday_moves', 'zone_dict-int', 'zone_dict-tzinfo', 'zone_dict-str', 'zone_callable',
               'zone_callable-offset', 'zone_dict-beats-utc', 'zone_numeric', 'zone_zero', 'zone_utc-name', 'zone_gmt+h', 'zone_name+h',
               'zone_unknown', 'zone_local-std', 'fuzzy_sentences', 'ampm_lookalike_hour>12', 'ampm_lookalike_flag-set',
-              'ampm_lookalike_no-hour', 'relation_accepted', 'tz_switch_calls'):
+              'ampm_lookalike_no-hour', 'relation_accepted', 'tz_switch_calls', 'fuzzy_odd_whitespace', 'zone_numeric-paren-name-plain',
+              'zone_numeric-paren-name-plain-colon', 'zone_numeric-paren-name-dict-colon', 'zone_numeric-paren-name-callable-colon'):
         if c.get(k, 0) < 40:
             out.append('%s only %d' % (k, c.get(k, 0)))
     for z in ('UTC', 'EST', 'GMT', 'IST'):
